@@ -44,6 +44,10 @@ var c06Dirs = []string{"", "d0", "d0/s", "d1", "d[2]"}
 func c06SmallCorpus(t *simrt.Tape) []byte {
 	n := t.W(9)
 	var b bytes.Buffer
+	if t.WBool(1, 10) {
+		// one to three bytes
+		return []byte([]string{"A", "\n", "a\n", "ab", "\r\n", "x\ny", "\x1f", "\x1f\x8b"}[t.W(8)])
+	}
 	for i := 0; i < n; i++ {
 		b.WriteString(genLine(t))
 		if i == n-1 && t.WBool(1, 3) {
